@@ -529,6 +529,8 @@ func c13Pipes(r *Run) {
 		"fhalf":      func(f float64) float64 { return f / 2 },
 		"notb":       func(b bool) bool { return !b },
 		"u8":         func(u uint8) uint8 { return u + 1 },
+		"argt":       func(v any, a any) string { return fmt.Sprintf("%T=%v", a, a) },
+		"upad":       func(s string, n uint) string { return fmt.Sprint(s, "#", n) },
 		"pick":       func(s string, f float64, b bool, n int) string { return fmt.Sprint(s, "/", f, "/", b, "/", n) },
 		"failsPtr":   func(s string) (string, *c13Err) { return "kept", &c13Err{"ptr boom"} },
 		"okPtr":      func(s string) (string, *c13Err) { return s + "!", nil },
@@ -582,6 +584,27 @@ func c13Pipes(r *Run) {
 		{"pick(1.5, true, 7)", "pick", func(v any) (any, bool) {
 			if sv, ok := asStr(v); ok {
 				return sv + "/1.5/true/7", true
+			}
+			return nil, false
+		}},
+		// numeric literals in every spelling, handed to a parameter that shows what the argument became
+		{"argt(.5)", "argt", func(v any) (any, bool) { return "float64=0.5", true }},
+		{"argt(+3)", "argt", func(v any) (any, bool) { return "int=3", true }},
+		{"argt(-2)", "argt", func(v any) (any, bool) { return "int=-2", true }},
+		{"argt(1e3)", "argt", func(v any) (any, bool) { return "float64=1000", true }},
+		{"argt(007)", "argt", func(v any) (any, bool) { return "int=7", true }},
+		{"argt(-.25)", "argt", func(v any) (any, bool) { return "float64=-0.25", true }},
+		{"argt(true)", "argt", func(v any) (any, bool) { return "bool=true", true }},
+		{"argt('7')", "argt", func(v any) (any, bool) { return "string=7", true }},
+		{"argt('true')", "argt", func(v any) (any, bool) { return "string=true", true }},
+		{"argt(\"1.5\")", "argt", func(v any) (any, bool) { return "string=1.5", true }},
+		{"argt(' padded ')", "argt", func(v any) (any, bool) { return "string= padded ", true }},
+		{"argt('s')", "argt", func(v any) (any, bool) { return "string=s", true }},
+		{"argt('a')", "argt", func(v any) (any, bool) { return "string=a", true }},
+		{"argt('')", "argt", func(v any) (any, bool) { return "string=", true }},
+		{"upad(+3)", "upad", func(v any) (any, bool) {
+			if sv, ok := asStr(v); ok {
+				return sv + "#3", true
 			}
 			return nil, false
 		}},
